@@ -20,7 +20,7 @@
    Property theorems only. *)
 From TV Require Import Base Model.Wiring Model.Ticker Model.Component Model.Sim Model.SimTime Model.Inline
   Proofs.WiringP Proofs.TickerP Proofs.FlattenP Proofs.SimP Proofs.LatestP Proofs.EqvP Proofs.InlineP Proofs.InlineLoopP
-  Oracle.SimCheck Proofs.InlineScopeP Proofs.InlineLatestP.
+  Oracle.SimCheck Proofs.InlineScopeP Proofs.InlineLatestP Proofs.FrameP Proofs.EqvCongP.
 Open Scope Z_scope.
 
 Theorem C03_route_exact : forall (conns : list conn) src (ch : list (port * Z)) ic ip v,
@@ -129,6 +129,24 @@ Example C03_boundary_example :
   let s := fst (fst (sim_run cfg (table_dev tab) 10 8 0 100000)) in
   (lookup 1%positive (d_last (dcs s 3%positive)) <> None /\ lookup 1%positive (d_last (dcs s 5%positive)) <> None).
 Proof. vm_compute. repeat split; discriminate. Qed.
+
+(* values are dictionaries: nothing the whole-simulation model computes depends on the order in
+   which an association list holds its entries.  Two nested ticks (any configuration with
+   single-source wirings, any depth) from states whose device inputs are equal as dictionaries
+   ([SR]: same last outputs, same update counts, inputs equal port by port, same scheduler
+   bookkeeping), on input changes equal as dictionaries, give outputs equal as dictionaries, the same
+   callback, the same updates with equal inputs, and states related in the same way *)
+Theorem C03_dictionary_adequacy : forall cfg (devf : devfun),
+  (forall c n t i, NoDup (keys (fst (devf c n t i)))) ->
+  (forall c n t i i', NoDup (keys i) -> NoDup (keys i') -> eqv i i' -> devf c n t i = devf c n t i') ->
+  (forall lv, single_source (l_conns (level_of cfg lv))) ->
+  forall f lv t chg chg' s s',
+    SR (devices_below cfg f lv) (levels_below cfg f lv) s s' -> eqv chg chg' -> NoDup (keys chg) -> NoDup (keys chg') ->
+    let '(s2, o, ca, ob) := on_tick_level cfg devf f lv t chg s in
+    let '(s2', o', ca', ob') := on_tick_level cfg devf f lv t chg' s' in
+    eqv o o' /\ NoDup (keys o) /\ NoDup (keys o') /\ ca' = ca /\ obs_rel ob ob' /\
+    SR (devices_below cfg f lv) (levels_below cfg f lv) s2 s2'.
+Proof. intros cfg devf Hnd Hext Hss f lv. exact (on_tick_level_eqv cfg devf Hnd Hext Hss f lv). Qed.
 
 Example C03_example :
   map fst (run_dc dc_init [([(1%positive, 5)], []); ([(2%positive, 7)], []); ([(1%positive, 6)], [])])
